@@ -344,8 +344,14 @@ public:
     assert(info.cur.get() != nullptr);
     auto next = info.cur->next.load(std::memory_order_relaxed);
     guard_ptr tmp_guard;
+    // If cur is not marked, but its successor changes while we try to acquire it (e.g. because the successor gets
+    // removed), we simply have to retry with the new successor. Falling back to find in that case would position the
+    // iterator on the first node with a key that is not less than cur's key - i.e. on cur itself once more.
     // (1) - this acquire-load synchronizes-with the release-CAS (8, 9, 10, 12, 15)
-    if (next.mark() == 0 && tmp_guard.acquire_if_equal(info.cur->next, next, std::memory_order_acquire)) {
+    while (next.mark() == 0 && !tmp_guard.acquire_if_equal(info.cur->next, next, std::memory_order_acquire)) {
+      next = info.cur->next.load(std::memory_order_relaxed);
+    }
+    if (next.mark() == 0) {
       info.prev = &info.cur->next;
       info.save = std::move(info.cur);
       info.cur = std::move(tmp_guard);
